@@ -168,11 +168,11 @@ def get_assignment_class(smarts_filename, nb_filename):
     global _global_assignment_class, _global_nonbonded_itp_file, _global_smarts_rule_file
     if (
         _global_assignment_class is None
-        or smarts_filename != _global_nonbonded_itp_file
-        or nb_filename != _global_smarts_rule_file
+        or smarts_filename != _global_smarts_rule_file
+        or nb_filename != _global_nonbonded_itp_file
     ):
         _global_nonbonded_itp_file = nb_filename
-        _global_nonbonded_itp_file = smarts_filename
+        _global_smarts_rule_file = smarts_filename
         _global_assignment_class = SMARTS_ASSIGNMENTS(
             _global_smarts_rule_file, _global_nonbonded_itp_file
         )
